@@ -161,6 +161,9 @@
 pub mod builder;
 pub mod scmp_handler;
 pub mod socket;
+/// Verification hook: scripted run of the socket receive loop (feature `verif-hooks`, off by default).
+#[cfg(feature = "verif-hooks")]
+pub mod verif_hooks_scmp;
 
 use std::{borrow::Cow, fmt, net, sync::Arc, time::Duration};
 
